@@ -585,3 +585,50 @@ func c19RegistryExact(c *Ctx) {
 	}
 	c.R.OK(rule, "s3db: registry reads counted", "-", fmt.Sprintf("%d uses of the registry inspected", n))
 }
+
+// ---- C19.lock-no-io: the registry lock is never held across a storage request ------------------------
+
+func init() {
+	register(&Rule{Name: "C19.lock-no-io", Min: 1, Run: c19LockNoIO,
+		Doc: "no call that can reach the S3 client is made while a process-wide guard lock is held: a mutex wait ignores the waiting connection's deadline"})
+	byProp["C19"] = append(byProp["C19"], "C19.lock-no-io", "C03.commit-order")
+	byProp["C14"] = append(byProp["C14"], "C19.lock-no-io")
+	explain["C19"] += " lock-no-io: 'without deadlocks or cross-talk: each connection's deadline … affects only its own statements' — CREATE/DROP, closing a connection, s3db_refresh, s3db_version, s3db_vacuum and s3db_changes of every connection take the registry lock; if one connection holds it while it talks to its (slow, stalled) endpoint, the others wait in a mutex, where no context deadline applies. Lockset (must-held) at every call site whose callee can reach the S3 client: no guard lock of the table above is held. commit-order (shared with C03): on a shared prefix another connection's open lists either the old versions or the new one — the new version is stored before its sources are retired."
+	explain["C14"] += " lock-no-io (shared with C19): a statement waiting for a lock held across another connection's storage request is not bounded by its own deadline."
+}
+
+func c19LockNoIO(c *Ctx) {
+	const rule = "C19.lock-no-io"
+	n, locked := 0, 0
+	held := map[*ssa.Function]map[ssa.Instruction]lockState{}
+	var bad []string
+	for _, s := range storageErrSites(c) {
+		n++
+		h, ok := held[s.Fn]
+		if !ok {
+			h = heldAt(s.Fn)
+			held[s.Fn] = h
+		}
+		st := h[s.Call.(ssa.Instruction)]
+		for l := range st {
+			isGuard := false
+			for _, g := range guardTable {
+				if g == l {
+					isGuard = true
+				}
+			}
+			if !isGuard {
+				continue
+			}
+			locked++
+			bad = append(bad, fmt.Sprintf("%s -> %s at %s holds %s", core.FuncName(s.Fn), s.Callee, c.P.Pos(s.Call.Pos()), l))
+		}
+	}
+	sort.Strings(bad)
+	c.R.Stats["C19.lock-no-io.sites"] = n
+	if n < 60 {
+		c.R.Errorf("C19.lock-no-io: only %d storage call sites found", n)
+	}
+	c.R.Cond(len(bad) == 0, rule, "no guard lock is held across a storage request", "-", fmt.Sprintf("%d call sites that can reach the S3 client, none inside a critical section of %d guard locks", n, len(guardTable)),
+		strings.Join(bad, "; ")+": every other connection's CREATE / DROP / close / refresh / version / vacuum / changes waits for that lock for as long as this connection's endpoint takes, whatever its own deadline says")
+}
